@@ -91,6 +91,10 @@ type LookupEv struct {
 	Path []ATok `json:"path"`
 	Outs []ROut `json:"outs"`
 	Alt  ROut   `json:"alt"` // same rules declared through the other source (config <-> annotation)
+	// the same request once more with a query string that names every variable field of the rule set with another
+	// value: same dispatch, and every path-bound field still holds the path text
+	QSame bool   `json:"qsame"`
+	QNote string `json:"qnote"`
 }
 
 func normElem(e *AElem) {
@@ -453,7 +457,9 @@ func buildMux(rules []ARule, order []int, plan regPlan, tr *rng) (rm *rmux) {
 	return rm
 }
 
-func (rm *rmux) lookup(kind, path string) (out ROut) {
+func (rm *rmux) lookup(kind, path string) (out ROut) { return rm.lookupQ(kind, path, "") }
+
+func (rm *rmux) lookupQ(kind, path, rawQuery string) (out ROut) {
 	defer func() {
 		if p := recover(); p != nil {
 			out = ROut{K: "panic", Caps: []Cap{}, Why: fmt.Sprint(p)}
@@ -463,7 +469,7 @@ func (rm *rmux) lookup(kind, path string) (out ROut) {
 	rm.last = nil
 	rm.mu.Unlock()
 	req := httptest.NewRequest(kind, "http://verif.test/", nil)
-	req.URL = &url.URL{Scheme: "http", Host: "verif.test", Path: path}
+	req.URL = &url.URL{Scheme: "http", Host: "verif.test", Path: path, RawQuery: rawQuery}
 	req.RequestURI = path
 	w := httptest.NewRecorder()
 	rm.mux.ServeHTTP(w, req)
@@ -587,7 +593,10 @@ func runRouterCase(c RCase, seed int64) ([]interface{}, map[string]interface{}) 
 	}
 	kinds := c.Kinds
 	if len(kinds) == 0 {
-		kinds = []string{"GET", "POST"}
+		// the verb is part of the rule: HEAD is not GET, and a seeded further verb (other standard ones, a custom
+		// one, a lower-case spelling) must only reach rules of its own kind or '*'
+		extra := []string{"PUT", "DELETE", "PATCH", "OPTIONS", "get", "LIST", "TRACE", "Get"}
+		kinds = []string{"GET", "POST", "HEAD", extra[r.Intn(len(extra))]}
 	}
 	paths := make([][]ATok, 0, len(c.Paths)+8)
 	for _, p := range c.Paths {
@@ -604,13 +613,49 @@ func runRouterCase(c RCase, seed int64) ([]interface{}, map[string]interface{}) 
 			[]ATok{mkTok("/", s), mkTok("/", m), mkTok(":", cz.seg("v"))},
 		)
 	}
+	// competing query: every variable field path of the rule set, with a value of its kind that no path carries
+	qv := url.Values{}
+	var collect func(es []AElem)
+	collect = func(es []AElem) {
+		for _, e := range es {
+			if e.T == "var" && len(e.Fp) > 0 {
+				val := "qcmp"
+				if last := e.Fp[len(e.Fp)-1]; last == "i" || last == "j" {
+					val = "987654"
+				}
+				qv.Set(strings.Join(e.Fp, "."), val)
+			}
+			collect(e.Pat)
+		}
+	}
+	for _, ru := range rules {
+		collect(ru.Tmpl.Segs)
+	}
+	rawQuery := qv.Encode()
 	var reqs []string
 	for _, p := range paths {
 		text := renderPath(p)
 		for _, kind := range kinds {
-			le := LookupEv{Ev: "Lookup", Case: c.ID, Kind: kind, Path: p}
+			le := LookupEv{Ev: "Lookup", Case: c.ID, Kind: kind, Path: p, QSame: true}
 			for _, rm := range muxes {
 				le.Outs = append(le.Outs, rm.lookup(kind, text))
+			}
+			if rawQuery != "" && len(le.Outs) > 0 && le.Outs[0].K == "dispatch" && le.Outs[0].Status == 200 {
+				plain, q := le.Outs[0], muxes[0].lookupQ(kind, text, rawQuery)
+				if q.K != plain.K || q.M != plain.M {
+					le.QSame, le.QNote = false, fmt.Sprintf("?%s: %s %s (status %d) instead of %s %s", rawQuery, q.K, q.M, q.Status, plain.K, plain.M)
+				}
+				for _, pc := range plain.Caps {
+					found := false
+					for _, qc := range q.Caps {
+						if strings.Join(qc.Fp, ".") == strings.Join(pc.Fp, ".") && fmt.Sprint(qc.Val) == fmt.Sprint(pc.Val) {
+							found = true
+						}
+					}
+					if !found && le.QSame {
+						le.QSame, le.QNote = false, fmt.Sprintf("?%s: field %s no longer holds %v", rawQuery, strings.Join(pc.Fp, "."), pc.Val)
+					}
+				}
 			}
 			if alt.err == nil {
 				le.Alt = alt.lookup(kind, text)
